@@ -546,6 +546,12 @@ def harness(c, fdesc, calls):
                 ok, why = False, "duplicate common term"
                 break
     if ok:
+        # repeated factors are collapsed: no factor occurs twice inside one term
+        for t in common + [p[0] for p in rgroups] + [p[1] for p in rgroups]:
+            if t is not INT and any(same_atom(t[i], t[j]) for i in range(len(t)) for j in range(i)):
+                ok, why = False, "a factor is repeated inside a term"
+                break
+    if ok:
         for p in rgroups:
             if not any(same_term(p[0], q[0]) and same_term(p[1], q[1]) for q in groups):
                 ok, why = False, "extra group term"
@@ -642,6 +648,9 @@ def concrete_model(m):
         sorted({conv(t) for t in m.common_terms}),
         sorted({(conv(g.expr), conv(g.factor)) for g in m.group_terms}),
         len(m.common_terms) == len({conv(t) for t in m.common_terms}),
+        # no factor twice inside a term
+        all(isinstance(t, Intercept) or len(t.components) == len({str(c.name) for c in t.components})
+            for t in list(m.common_terms) + [g.expr for g in m.group_terms] + [g.factor for g in m.group_terms]),
     )
 
 
@@ -723,7 +732,7 @@ def reference_model(formula):
         return "1" if t is INT else ":".join(sorted(set(t)))
 
     common = ([INT] if has_int else []) + terms
-    return (resp, sorted({conv(t) for t in common}), sorted({(conv(e), conv(g)) for e, g in groups}), True)
+    return (resp, sorted({conv(t) for t in common}), sorted({(conv(e), conv(g)) for e, g in groups}), True, True)
 
 
 # ---------------------------------------------------------------------------------------------
